@@ -239,8 +239,8 @@ def main(argv):
             return run_check(cmd, tier)
         if cmd == "replay":
             return run_replay(argv[1])
-        if cmd == "_c18host":
-            return load_workload("C18").host_main(argv[1])
+        if cmd == "_host":
+            return kernel.host_main(load_workload(argv[1]), argv[2])
         if cmd == "_solo":
             kernel.import_library()
             return load_workload("C15").solo_main(argv[1], int(argv[2]))
